@@ -149,6 +149,8 @@ def check(chk: Check) -> None:
     n_store = n_miss_ret = n_hit_ret = 0
     r2_problems: List[Tuple[str, int, str]] = []
     r3_problems: List[str] = []
+    ret_absent: set = set()
+    ret_present: set = set()
     for p in paths:
         yp = [e for e in p.events if is_yacc_parse(e, selft)]
         acc = cache_accesses(p, cache)
@@ -197,6 +199,7 @@ def check(chk: Check) -> None:
             if p.normal:
                 n_miss_ret += 1
                 ret = p.outcome[1]
+                (ret_absent if cache_absent else ret_present).add(A.strip_ids(ret))
                 if om.mentions(ret, cache):
                     r2_problems.append(('miss return', p.events[-1].line, 'a miss re-reads the cache (`%s`) instead of returning the '
                                         'fresh tree: an evicting mapping breaks it' % show(ret)))
@@ -214,6 +217,11 @@ def check(chk: Check) -> None:
                                         'a hit returns %s, not the cached object' % show(p.outcome[1])))
                 if stores:
                     r2_problems.append(('store on hit', stores[0][2].line, 'the cache is written on a hit'))
+    if ret_absent and ret_present and ret_absent != ret_present:
+        only_p = sorted(show(x)[:80] for x in ret_present - ret_absent)
+        only_a = sorted(show(x)[:80] for x in ret_absent - ret_present)
+        r3_problems.append('a miss returns a different tree with a cache than without one (with: %s; without: %s): the cache is visible '
+                           'in what is evaluated' % ('; '.join(only_p) or 'same', '; '.join(only_a) or 'same'))
     if len(miss_sigs) > 1:
         r3_problems.append('with and without a cache the parser is driven differently (%d distinct preparation sequences)' % len(miss_sigs))
     where = fi.where
@@ -357,6 +365,34 @@ def _r4_r5(chk: Check, R4: str, R5: str) -> None:
                 sites.append(('default factory %s.%s' % (c2, f2), norm(node)))
                 if not ok:
                     bad.append('default factory %s.%s supplies `%s`' % (c2, f2, norm(node)))
+        # constructor calls outside the grammar actions (a post-processing pass, a front-end shortcut): the field must be a
+        # constant written at the call site - anything computed may be a list or dict, which eval would then hand out, the
+        # same object on every evaluation
+        g_mod = C.grammar(F).module
+        fld_names = [f_[0] for f_ in F.all_fields(cls, ctor=True)] if cls in F.classes else []
+        for m_ in F.modules.values():
+            if '.ply' in m_.name or m_ is g_mod:
+                continue
+            for n_ in ast.walk(m_.tree):
+                if isinstance(n_, ast.Call) and F.resolve_expr(m_, n_.func) == ('cls', cls):
+                    arg_ = None
+                    for k_ in n_.keywords:
+                        if k_.arg == fld:
+                            arg_ = k_.value
+                    if arg_ is None and fld in fld_names and fld_names.index(fld) < len(n_.args):
+                        arg_ = n_.args[fld_names.index(fld)]
+                    if arg_ is None:
+                        continue
+                    if isinstance(arg_, ast.Constant):
+                        sites.append(('%s:%d' % (m_.rel, n_.lineno), norm(arg_)))
+                        continue
+                    inside_factory = any(isinstance(x, ast.Call) and any(isinstance(kw_.value, ast.Lambda) and n_ in ast.walk(kw_.value) for kw_ in x.keywords)
+                                         for x in ast.walk(m_.tree))
+                    if inside_factory:
+                        continue            # default factories are audited above
+                    sites.append(('%s:%d' % (m_.rel, n_.lineno), norm(arg_)))
+                    bad.append('%s:%d builds %s(%s=%s) outside the grammar from a computed value (it may be a list or dict; eval hands '
+                               'out that very object on every evaluation)' % (m_.rel, n_.lineno, cls.rsplit('.', 1)[-1], fld, norm(arg_)[:60]))
         chk.require(not bad and sites, R5, '%s returns self.%s' % (qn, fld), F.func(qn).where if qn in F.functions else '',
                     '; '.join(bad) or 'all %d constructor sites supply immutable scalars (token text, Decimal, True/False/None)' % len(sites))
 
